@@ -1,8 +1,629 @@
-//! engine `phase` (stub: to be filled in)
-use crate::util::Tr;
-use serde_json::{json, Value};
+//! C16: quizx::phase::Phase driven as a register machine; TLC (mc/Trace_Phase.tla) decides every
+//! logged result with the definitions of spec/Phase.tla.
+//!
+//!   qxv record phase --out P --shards S [--seed s]
+//!        --exhaustive N,D [--maxm M] [--pairs P]   every n in -N..=N, d in 1..=D: new (both sign
+//!                                conventions), preds, neg, cmp with n/d + 2k and n/d + 1, a few integer
+//!                                multiples, limit_denominator for every m in 2..=M, P sampled add/sub
+//!        --raw                   with --exhaustive: also Phase::new(Ratio::new_raw(n, d)) and (-n, -d); observation only
+//!        --random K              K seeded histories of ~30 operations on 4 phase registers
+//!        --floats K              K extra f64 round trips (from_f64 . to_f64), harness-side 1e-12 test
+//!        --big K                 K operations with operands up to 2^40, checked by the harness only
+//!                                (canonical range + reducedness, and congruence modulo 2 in i128)
+//!
+//! Everything TLC sees stays below 2^15 per operand (so its 32-bit products cannot overflow); the
+//! guards that ensure it are computed by the harness itself (own gcd / lcm), never from the answer
+//! of the code under test.  A result that is not representable that way is logged as
+//! `"res":"bad"` with decimal strings and is a violation.
+//!
+//! A crash that cannot be caught (the double normalisation in Phase::normalize turns many bugs into
+//! unbounded recursion = stack overflow = abort) must still be data: before recording, the same
+//! workload is run once in a child process (`--dry`) that prints every request before executing
+//! it; if the child dies or hangs, the parent logs the last request as a `crash` event instead of
+//! running the workload itself.
 
-#[allow(unused_variables)]
+use crate::util::{arg_flag, arg_num, arg_val, guarded, Tr};
+use num::{One, Rational64, Zero};
+use quizx::phase::Phase;
+use rand::rngs::StdRng;
+use rand::{Rng, SeedableRng};
+use serde_json::{json, Value};
+use std::collections::BTreeMap;
+use std::io::{BufRead, BufReader};
+use std::process::{Command, Stdio};
+use std::sync::{Arc, Mutex};
+
+const SMALL: i64 = 1 << 15;
+const NREGS: usize = 4;
+
+fn gcd(a: i64, b: i64) -> i64 {
+    let (mut a, mut b) = (a.abs(), b.abs());
+    while b != 0 {
+        (a, b) = (b, a % b);
+    }
+    a
+}
+fn gcd128(a: i128, b: i128) -> i128 {
+    let (mut a, mut b) = (a.abs(), b.abs());
+    while b != 0 {
+        (a, b) = (b, a % b);
+    }
+    a
+}
+fn nd(p: &Phase) -> (i64, i64) {
+    let r = p.to_rational();
+    (*r.numer(), *r.denom())
+}
+/// can TLC compute with this stored value?
+fn sane(p: &Phase) -> bool {
+    let (n, d) = nd(p);
+    d > 0 && d < SMALL && n.abs() < 2 * SMALL
+}
+
+struct M<'a> {
+    regs: Vec<Phase>,
+    tr: &'a mut Tr,
+    dry: bool,
+    cnt: BTreeMap<&'static str, usize>,
+}
+
+impl M<'_> {
+    fn bump(&mut self, k: &'static str) {
+        *self.cnt.entry(k).or_insert(0) += 1;
+    }
+    fn announce(&self, req: &Value) {
+        if self.dry {
+            println!("{req}");
+        }
+    }
+    fn emit(&mut self, ev: Value) {
+        if !self.dry {
+            self.tr.emit(ev);
+        }
+    }
+    /// the value the code holds in register a (always small: only such results are stored)
+    fn pv(&self, a: usize) -> Value {
+        let (n, d) = nd(&self.regs[a]);
+        json!([n, d])
+    }
+    fn begin(&mut self, mode: &str) {
+        if !self.dry {
+            self.tr.group();
+        }
+        self.regs = vec![Phase::zero(); NREGS];
+        self.emit(json!({"k": "begin", "regs": NREGS, "mode": mode}));
+        self.bump("groups");
+    }
+    /// run a request that produces a phase for register r
+    fn op(&mut self, kind: &'static str, mut req: Value, r: usize, f: impl FnOnce(&[Phase]) -> Phase) {
+        self.announce(&req);
+        self.bump(kind);
+        let regs = self.regs.clone();
+        match guarded(|| f(&regs)) {
+            Err(msg) => {
+                req["res"] = json!("panic");
+                req["msg"] = json!(msg);
+                self.bump("panics");
+            }
+            Ok(p) if sane(&p) => {
+                let (n, d) = nd(&p);
+                req["res"] = json!("ok");
+                req["out"] = json!([n, d]);
+                self.regs[r] = p;
+            }
+            Ok(p) => {
+                let (n, d) = nd(&p);
+                req["res"] = json!("bad");
+                req["outs"] = json!([n.to_string(), d.to_string()]);
+            }
+        }
+        self.emit(req);
+    }
+    fn new_phase(&mut self, r: usize, n: i64, d: i64, via: &'static str) {
+        assert!(n.abs() < SMALL && d != 0 && d.abs() < SMALL);
+        let req = json!({"k": "new", "r": r, "n": n, "d": d, "via": via});
+        self.op("new", req, r, move |_| match via {
+            "ratio" => Phase::new(Rational64::new(n, d)),
+            "tuple" => Phase::from((n, d)),
+            "int" => {
+                assert!(d == 1);
+                Phase::from(n)
+            }
+            _ => unreachable!(),
+        });
+    }
+    /// Phase::new on a Ratio built with Ratio::new_raw (unreduced and/or negative denominator): such values are
+    /// legal num::Ratio values but nothing in quizx produces them; recorded as an observation (no verdict)
+    fn new_raw(&mut self, n: i64, d: i64) {
+        let mut req = json!({"k": "newraw", "n": n, "d": d});
+        self.announce(&req);
+        self.bump("newraw");
+        match guarded(|| {
+            let p = Phase::new(Rational64::new_raw(n, d));
+            (p, p.is_clifford(), p.is_t())
+        }) {
+            Err(msg) => {
+                req["res"] = json!("panic");
+                req["msg"] = json!(msg);
+            }
+            Ok((p, cl, t)) => {
+                let (pn, pd) = nd(&p);
+                req["res"] = json!("ok");
+                req["out"] = json!([pn, pd]);
+                req["clifford"] = json!(cl);
+                req["t"] = json!(t);
+            }
+        }
+        self.emit(req);
+    }
+    fn lcm_small(&self, a: usize, b: usize) -> bool {
+        let (da, db) = (nd(&self.regs[a]).1, nd(&self.regs[b]).1);
+        da / gcd(da, db) * db < SMALL
+    }
+    fn add(&mut self, r: usize, a: usize, b: usize, asg: bool) {
+        let asg = asg && r == a;
+        let req = json!({"k": "add", "r": r, "a": a, "b": b, "asg": asg, "av": self.pv(a), "bv": self.pv(b)});
+        self.op("add", req, r, move |x| {
+            if asg {
+                let mut y = x[a];
+                y += x[b];
+                y
+            } else {
+                x[a] + x[b]
+            }
+        });
+    }
+    fn sub(&mut self, r: usize, a: usize, b: usize, asg: bool) {
+        let asg = asg && r == a;
+        let req = json!({"k": "sub", "r": r, "a": a, "b": b, "asg": asg, "av": self.pv(a), "bv": self.pv(b)});
+        self.op("sub", req, r, move |x| {
+            if asg {
+                let mut y = x[a];
+                y -= x[b];
+                y
+            } else {
+                x[a] - x[b]
+            }
+        });
+    }
+    fn neg(&mut self, r: usize, a: usize) {
+        let req = json!({"k": "neg", "r": r, "a": a, "av": self.pv(a)});
+        self.op("neg", req, r, move |x| -x[a]);
+    }
+    fn mulint(&mut self, r: usize, a: usize, c: i64, asg: bool) {
+        assert!(c.abs() < SMALL);
+        let asg = asg && r == a;
+        let req = json!({"k": "mulint", "r": r, "a": a, "c": c, "asg": asg, "av": self.pv(a)});
+        self.op("mulint", req, r, move |x| {
+            if asg {
+                let mut y = x[a];
+                y *= c;
+                y
+            } else {
+                x[a] * c
+            }
+        });
+    }
+    fn limit(&mut self, r: usize, a: usize, m: i64) {
+        assert!((2..SMALL).contains(&m));
+        let req = json!({"k": "limit", "r": r, "a": a, "m": m, "av": self.pv(a)});
+        self.op("limit", req, r, move |x| x[a].limit_denominator(m));
+    }
+    fn preds(&mut self, a: usize) {
+        let mut req = json!({"k": "preds", "a": a, "av": self.pv(a)});
+        self.announce(&req);
+        self.bump("preds");
+        let p = self.regs[a];
+        match guarded(|| (p.is_pauli(), p.is_clifford(), p.is_proper_clifford(), p.is_t(), p.is_zero(), p.is_one())) {
+            Err(msg) => {
+                req["res"] = json!("panic");
+                req["msg"] = json!(msg);
+            }
+            Ok((pa, cl, pc, t, z, o)) => {
+                req["res"] = json!("ok");
+                req["pauli"] = json!(pa);
+                req["clifford"] = json!(cl);
+                req["proper"] = json!(pc);
+                req["t"] = json!(t);
+                req["zero"] = json!(z);
+                req["one"] = json!(o);
+            }
+        }
+        self.emit(req);
+    }
+    fn cmp(&mut self, a: usize, b: usize) {
+        let mut req = json!({"k": "cmp", "a": a, "b": b, "av": self.pv(a), "bv": self.pv(b)});
+        self.announce(&req);
+        self.bump("cmp");
+        let (p, q) = (self.regs[a], self.regs[b]);
+        match guarded(|| (p == q, !(p != q))) {
+            Err(msg) => {
+                req["res"] = json!("panic");
+                req["msg"] = json!(msg);
+            }
+            Ok((eq, eq2)) => {
+                req["res"] = json!("ok");
+                req["eq"] = json!(eq);
+                req["ne_consistent"] = json!(eq == eq2);
+            }
+        }
+        self.emit(req);
+    }
+    /// from_f64 / to_f64 round trip of the double `f`; (n, d, exact): f was computed as n/d, exactly if `exact`
+    fn f64rt(&mut self, r: usize, f: f64, n: i64, d: i64, src: &'static str) {
+        let exact = src == "dyadic";
+        let mut req = json!({"k": "f64", "r": r, "n": n, "d": d, "exact": exact, "src": src, "fs": format!("{f:e}")});
+        self.announce(&req);
+        self.bump("f64");
+        match guarded(|| {
+            let p = Phase::from_f64(f);
+            let p2: Phase = f.into();
+            let back = p.to_f64();
+            let back2: f64 = p.into();
+            (p, back, p == p2 && back == back2)
+        }) {
+            Err(msg) => {
+                req["res"] = json!("panic");
+                req["msg"] = json!(msg);
+            }
+            Ok((p, back, same)) => {
+                // distance of back and f modulo 2 (both are doubles of moderate size: the subtraction and
+                // the remainder are exact or off by one ulp of |f|)
+                let mut diff = (back - f) % 2.0;
+                if diff > 1.0 {
+                    diff -= 2.0;
+                }
+                if diff < -1.0 {
+                    diff += 2.0;
+                }
+                let in_range = back > -1.0 && back <= 1.0;
+                req["res"] = json!("ok");
+                req["fok"] = json!(diff.abs() <= 1e-12 && in_range && same);
+                let small = sane(&p);
+                req["small"] = json!(small);
+                if small {
+                    let (pn, pd) = nd(&p);
+                    req["out"] = json!([pn, pd]);
+                    self.regs[r] = p;
+                } else {
+                    // too big for TLC: canonical range + reducedness decided here
+                    let (pn, pd) = nd(&p);
+                    req["out"] = json!([0, 1]);
+                    req["outs"] = json!([pn.to_string(), pd.to_string()]);
+                    req["bigok"] = json!(pd > 0 && -pd < pn && pn <= pd && gcd(pn, pd) == 1);
+                }
+            }
+        }
+        self.emit(req);
+    }
+    /// operands up to 2^40: harness-side checks only
+    fn big(&mut self, rng: &mut StdRng) {
+        let bits = |rng: &mut StdRng, max: u32| -> i64 {
+            let b = rng.random_range(1..=max);
+            rng.random_range((1i64 << (b - 1))..(1i64 << b))
+        };
+        let sign = |rng: &mut StdRng| if rng.random_bool(0.5) { -1 } else { 1 };
+        let op = ["new", "neg", "add", "sub", "mulint", "edge"][rng.random_range(0..6usize)];
+        // operands (raw pairs), exact result as an i128 pair
+        let (x, y, c): ((i64, i64), (i64, i64), i64) = match op {
+            "add" | "sub" => {
+                let a = bits(rng, 20);
+                let (b, c2) = (bits(rng, 10), bits(rng, 10));
+                let (d1, d2) = (a * b, a * c2);
+                ((sign(rng) * rng.random_range(0..=d1), d1), (sign(rng) * rng.random_range(0..=d2), d2), 0)
+            }
+            "edge" => {
+                // numerators just outside / on the boundary of the interval, big denominators
+                let d = bits(rng, 40);
+                let t = rng.random_range(-3..=3i64);
+                let e = rng.random_range(-1..=1i64);
+                (((2 * t + 1) * d + e, d), (0, 1), 0)
+            }
+            "mulint" => ((sign(rng) * bits(rng, 40), bits(rng, 40)), (0, 1), sign(rng) * bits(rng, 20)),
+            _ => ((sign(rng) * bits(rng, 40), sign(rng) * bits(rng, 40)), (0, 1), 0),
+        };
+        let mut req = json!({"k": "big", "op": op, "x": [x.0.to_string(), x.1.to_string()], "y": [y.0.to_string(), y.1.to_string()], "c": c.to_string()});
+        self.announce(&req);
+        self.bump("big");
+        let res = guarded(|| {
+            let px = Phase::new(Rational64::new(x.0, x.1));
+            let py = Phase::new(Rational64::new(y.0, y.1));
+            match op {
+                "new" | "edge" => (px, px),
+                "neg" => (px, -px),
+                "add" => (px, px + py),
+                "sub" => (px, px - py),
+                "mulint" => (px, px * c),
+                _ => unreachable!(),
+            }
+        });
+        match res {
+            Err(msg) => {
+                req["res"] = json!("panic");
+                req["msg"] = json!(msg);
+            }
+            Ok((px, out)) => {
+                let (xn, xd) = (x.0 as i128, x.1 as i128);
+                let (yn, yd) = (y.0 as i128, y.1 as i128);
+                let (en, ed): (i128, i128) = match op {
+                    "new" | "edge" => (xn, xd),
+                    "neg" => (-xn, xd),
+                    "add" => (xn * yd + yn * xd, xd * yd),
+                    "sub" => (xn * yd - yn * xd, xd * yd),
+                    "mulint" => (xn * c as i128, xd),
+                    _ => unreachable!(),
+                };
+                let canon = |p: &Phase| {
+                    let (n, d) = nd(p);
+                    d > 0 && -d < n && n <= d && gcd(n, d) == 1
+                };
+                // out - en/ed is an even integer  <=>  on*ed - en*od = 0 mod 2*od*ed
+                let (on, od) = nd(&out);
+                let (on, od) = (on as i128, od as i128);
+                let g = gcd128(en, ed).max(1);
+                let (en, ed) = (en / g, ed / g);
+                let cong = od != 0 && (on * ed - en * od) % (2 * od * ed) == 0;
+                req["res"] = json!("ok");
+                req["outs"] = json!([on.to_string(), od.to_string()]);
+                req["bigok"] = json!(canon(&out) && canon(&px));
+                req["cong"] = json!(cong);
+            }
+        }
+        self.emit(req);
+    }
+}
+
+/// a raw operand n/d (possibly unreduced, possibly negative denominator) whose reduced
+/// denominator divides `base`; numerators biased to the boundary of (-1, 1] and its translates
+fn operand(rng: &mut StdRng, base: i64) -> (i64, i64) {
+    let divs: Vec<i64> = (1..=base).filter(|x| base % x == 0).collect();
+    let d0 = divs[rng.random_range(0..divs.len())];
+    let n0 = match rng.random_range(0..10u32) {
+        0 => d0,
+        1 => -d0,
+        2 => d0 + 1,
+        3 => -d0 - 1,
+        4 => rng.random_range(-3..=3i64) * d0 + rng.random_range(-1..=1i64),
+        5 => 0,
+        _ => rng.random_range(-4 * d0..=4 * d0),
+    };
+    // common factor / sign of the denominator
+    let mut s = [1, 1, 1, -1, -1, 2, 3, -2][rng.random_range(0..8usize)];
+    if (n0 * s).abs() >= SMALL || (d0 * s).abs() >= SMALL {
+        s = s.signum();
+    }
+    let n0 = n0.clamp(-(SMALL - 1), SMALL - 1);
+    (n0 * s, d0 * s)
+}
+
+const BASES: [i64; 16] = [1, 2, 4, 8, 12, 16, 24, 60, 128, 360, 1024, 5040, 16384, 27720, 30030, 32760];
+
+fn history(m: &mut M, rng: &mut StdRng) {
+    m.begin("rand");
+    let base = if rng.random_bool(0.8) { BASES[rng.random_range(0..BASES.len())] } else { rng.random_range(2..SMALL) };
+    let len = rng.random_range(25..=35);
+    for r in 0..NREGS.min(3) {
+        let (n, d) = operand(rng, base);
+        m.new_phase(r, n, d, if rng.random_bool(0.5) { "ratio" } else { "tuple" });
+    }
+    for _ in 0..len {
+        let (r, a, b) = (rng.random_range(0..NREGS), rng.random_range(0..NREGS), rng.random_range(0..NREGS));
+        let asg = rng.random_bool(0.4);
+        match rng.random_range(0..100u32) {
+            0..=14 => {
+                let (n, d) = operand(rng, base);
+                if d == 1 && rng.random_bool(0.5) {
+                    m.new_phase(r, n, 1, "int")
+                } else {
+                    m.new_phase(r, n, d, if rng.random_bool(0.5) { "ratio" } else { "tuple" })
+                }
+            }
+            15..=32 if m.lcm_small(a, b) => m.add(if asg { a } else { r }, a, b, asg),
+            33..=47 if m.lcm_small(a, b) => m.sub(if asg { a } else { r }, a, b, asg),
+            48..=54 => m.neg(r, a),
+            55..=65 => {
+                let c = match rng.random_range(0..4u32) {
+                    0 => rng.random_range(-(SMALL - 1)..SMALL),
+                    1 => 2 * nd(&m.regs[a]).1 * rng.random_range(-1..=1i64) + rng.random_range(-1..=1i64),
+                    _ => rng.random_range(-9..=9i64),
+                };
+                let c = c.clamp(-(SMALL - 1), SMALL - 1);
+                m.mulint(if asg { a } else { r }, a, c, asg)
+            }
+            66..=76 => {
+                let d = nd(&m.regs[a]).1;
+                let mm = match rng.random_range(0..5u32) {
+                    0 => rng.random_range(2..=(d + 1).max(2)),
+                    1 => rng.random_range(2..=64),
+                    2 => rng.random_range(2..=1024),
+                    3 => (d / 2).max(2),
+                    _ => rng.random_range(2..=16),
+                };
+                m.limit(r, a, mm.clamp(2, 4096))
+            }
+            77..=84 => m.preds(a),
+            85..=92 => {
+                if rng.random_bool(0.6) {
+                    // b := the same class written differently (shifted by 2t, unreduced, sign-flipped denominator)
+                    let (n, d) = nd(&m.regs[a]);
+                    let t = rng.random_range(-3..=3i64);
+                    let mut s = [1, -1, 2, -3][rng.random_range(0..4usize)];
+                    if ((n + 2 * t * d) * s).abs() >= SMALL || (d * s).abs() >= SMALL {
+                        s = 1;
+                    }
+                    if (n + 2 * t * d).abs() < SMALL && a != b {
+                        m.new_phase(b, (n + 2 * t * d) * s, d * s, "ratio");
+                    }
+                }
+                m.cmp(a, b)
+            }
+            _ => {
+                let (n, d) = nd(&m.regs[a]);
+                match rng.random_range(0..3u32) {
+                    0 => {
+                        let j = rng.random_range(0..=14u32);
+                        let dd = 1i64 << j;
+                        let nn = rng.random_range(-4 * dd..=4 * dd).clamp(-(SMALL - 1), SMALL - 1);
+                        m.f64rt(r, nn as f64 / dd as f64, nn, dd, "dyadic")
+                    }
+                    1 => m.f64rt(r, n as f64 / d as f64, n, d, "ratio"),
+                    _ => m.f64rt(r, rng.random_range(-40.0..40.0f64), 0, 1, "rand"),
+                }
+            }
+        }
+    }
+}
+
+fn exhaustive(m: &mut M, rng: &mut StdRng, nmax: i64, dmax: i64, maxm: i64, pairs: usize, raw: bool) {
+    for d in 1..=dmax {
+        for n in -nmax..=nmax {
+            if (n + nmax) % 16 == 0 {
+                m.begin("exh");
+            }
+            m.new_phase(0, n, d, "ratio");
+            m.preds(0);
+            if raw {
+                m.new_raw(n, d);
+                m.new_raw(-n, -d);
+            }
+            m.new_phase(1, -n, -d, "tuple");
+            m.cmp(0, 1);
+            if d == 1 {
+                m.new_phase(1, n, 1, "int");
+                m.cmp(0, 1);
+            }
+            m.neg(1, 0);
+            m.neg(2, 1);
+            m.cmp(0, 2);
+            // the same class two turns further / a different class half a turn further
+            let t = [1, -1, 2, -2][((n + 2 * d) as usize) % 4];
+            m.new_phase(1, n + 2 * t * d, d, "ratio");
+            m.cmp(0, 1);
+            m.new_phase(1, n + d, d, "ratio");
+            m.cmp(0, 1);
+            for c in [-2, 2, 3, 8, rng.random_range(-64..=64i64)] {
+                m.mulint(2, 0, c, false);
+            }
+            for mm in 2..=maxm {
+                m.limit(2, 0, mm);
+            }
+            for _ in 0..pairs {
+                let d2 = rng.random_range(1..=dmax);
+                let n2 = rng.random_range(-nmax..=nmax);
+                m.new_phase(3, n2, d2, "ratio");
+                m.add(2, 0, 3, false);
+                m.sub(2, 0, 3, false);
+                m.sub(1, 2, 0, false); // (x - y) - x = -y
+            }
+        }
+    }
+}
+
+fn workload(args: &[String], seed: u64, m: &mut M) {
+    let mut rng = StdRng::seed_from_u64(seed ^ 0xc16);
+    if let Some(e) = arg_val(args, "--exhaustive") {
+        let p: Vec<i64> = e.split(',').map(|x| x.parse().expect("--exhaustive N,D")).collect();
+        let maxm: i64 = arg_num(args, "--maxm", 12);
+        let pairs: usize = arg_num(args, "--pairs", 2);
+        assert!(p[0] + 4 * p[1] < SMALL && p[1] < 180);
+        exhaustive(m, &mut rng, p[0], p[1], maxm, pairs, arg_flag(args, "--raw"));
+    }
+    let k: usize = arg_num(args, "--random", 0);
+    for _ in 0..k {
+        history(m, &mut rng);
+    }
+    let k: usize = arg_num(args, "--floats", 0);
+    for i in 0..k {
+        if i % 40 == 0 {
+            m.begin("f64");
+        }
+        let f = match i % 4 {
+            0 => rng.random_range(-1.0..1.0f64),
+            1 => rng.random_range(-40.0..40.0f64),
+            2 => rng.random_range(-1000.0..1000.0f64),
+            _ => (rng.random_range(-64..=64i64) as f64) / 32.0 + [0.0, 1e-9, -1e-9, 1e-13][rng.random_range(0..4usize)],
+        };
+        m.f64rt(i % NREGS, f, 0, 1, "rand");
+    }
+    let k: usize = arg_num(args, "--big", 0);
+    for i in 0..k {
+        if i % 50 == 0 {
+            m.begin("big");
+        }
+        m.big(&mut rng);
+    }
+}
+
+/// run the workload in a child process without recording; Err((status, last request)) if it died or hung
+fn probe(args: &[String]) -> Result<(), (String, String)> {
+    let exe = std::env::current_exe().expect("current_exe");
+    let out = arg_val(args, "--out").unwrap();
+    let dry_out = format!("{out}_dry");
+    let mut a: Vec<String> = vec![];
+    let mut i = 1;
+    while i < args.len() {
+        match args[i].as_str() {
+            "--out" => {
+                a.push("--out".into());
+                a.push(dry_out.clone());
+                i += 2;
+            }
+            "--shards" => i += 2,
+            x => {
+                a.push(x.into());
+                i += 1;
+            }
+        }
+    }
+    a.push("--shards".into());
+    a.push("1".into());
+    a.push("--dry".into());
+    let timeout: u64 = arg_num(args, "--probe-timeout", 900);
+    let mut child = Command::new(exe).args(&a).stdout(Stdio::piped()).stderr(Stdio::null()).spawn().expect("spawn probe");
+    let last = Arc::new(Mutex::new(String::new()));
+    let stdout = child.stdout.take().unwrap();
+    let l2 = last.clone();
+    let reader = std::thread::spawn(move || {
+        for line in BufReader::new(stdout).lines().map_while(Result::ok) {
+            if line.starts_with('{') {
+                *l2.lock().unwrap() = line;
+            }
+        }
+    });
+    let t0 = std::time::Instant::now();
+    let status = loop {
+        match child.try_wait().expect("wait") {
+            Some(s) => break Some(s),
+            None if t0.elapsed().as_secs() > timeout => {
+                let _ = child.kill();
+                let _ = child.wait();
+                break None;
+            }
+            None => std::thread::sleep(std::time::Duration::from_millis(10)),
+        }
+    };
+    let _ = reader.join();
+    let _ = std::fs::remove_file(format!("{dry_out}.0.ndjson"));
+    let last = last.lock().unwrap().clone();
+    match status {
+        Some(s) if s.success() => Ok(()),
+        Some(s) => Err((format!("{s}").chars().filter(|c| c.is_ascii() && *c != '"').collect(), last)),
+        None => Err((format!("no answer within {timeout} s"), last)),
+    }
+}
+
 pub fn record(args: &[String], seed: u64, tr: &mut Tr) -> Value {
-    json!({"stub": true})
+    let dry = arg_flag(args, "--dry");
+    if !dry && !arg_flag(args, "--no-probe") {
+        if let Err((status, last)) = probe(args) {
+            tr.group();
+            tr.emit(json!({"k": "begin", "regs": NREGS, "mode": "crash"}));
+            let op: Value = serde_json::from_str(&last).unwrap_or(json!({"k": "unknown"}));
+            tr.emit(json!({"k": "crash", "status": status, "op": op}));
+            return json!({"crashed": true, "status": status, "last_request": last});
+        }
+    }
+    let mut m = M { regs: vec![Phase::zero(); NREGS], tr, dry, cnt: BTreeMap::new() };
+    workload(args, seed, &mut m);
+    json!({"crashed": false, "counts": m.cnt})
 }
